@@ -353,8 +353,8 @@ def fmax (a b : Float) : Float := if a < b then b else a
 def cvWriteF (h w : Nat) (vals : List Float) : Float × List Int :=
   let um := vals.map (· / 1000.0)
   let valid := um.filter (fun x => !x.isNaN)
-  let mn := valid.foldl fmin (valid.headD 0.0)
-  let mx := valid.foldl fmax (valid.headD 0.0)
+  let mn := valid.foldl fmin (valid.headD (0.0 / 0.0))      -- `np.nanmin` of an all-NaN map is NaN
+  let mx := valid.foldl fmax (valid.headD (0.0 / 0.0))
   let peak0 := fmax mn.abs mx.abs
   let peak := if peak0 < 2.220446049250313e-16 then 1.0 else peak0
   let scale := 32767.0 / peak
